@@ -40,6 +40,8 @@ package spy
 //@ func (s *spyServer) SubscribeSignedVAA(req *spyv1.SubscribeSignedVAARequest, resp spyv1.SpyRPCService_SubscribeSignedVAAServer) (err error)
 //@   props C20
 //@   requires s != nil && s.subs != nil && req != nil && (forall i in 0..len(req.Filters) :: req.Filters[i] != nil)
+//@   requires forall k in dom(s.subs) :: allocated(s.subs[k])
+//@   ensures [unsubscribed-on-return] sub != nil ==> forall k in dom(s.subs) :: s.subs[k] != sub
 //@   modifies *
 //@   replay spy_Subscribe.go.tmpl
 //@   at [fi = append(fi, filter{ chainId: vaa.ChainID(t.EmitterFilter.ChainId), emitterAddr: addr, })]: assume-env [set-oneof-has-message] t.EmitterFilter != nil
@@ -47,3 +49,8 @@ package spy
 //@   at [s.subs[id] = sub]: assert [one-filter-per-requested-entry] len(sub.filters) == old(len(req.Filters))
 //@   loop [range req.Filters]:
 //@     invariant [one-filter-per-entry] len(fi) == $i
+// the handler loop: other handlers and Publish change the table concurrently, but this call's
+// subscription object is known to nobody else - it sits under its own id only
+//@   loop [for]:
+//@     invariant [self] s != nil && s.subs != nil && sub != nil
+//@     invariant [only-under-own-id] forall k in dom(s.subs) :: k != id ==> s.subs[k] != sub
